@@ -27,6 +27,14 @@ def run(ctx):
   ctx.rule('R16.1', 'site inventory over the chain-data parsers on the indexing path (envelopes, runestones, properties, inscription accessors, tapscript extraction, rune balance decoding): every panic-capable site is discharged')
   ctx.rule('R16.2', 'the assert!s of RuneUpdater::index_runes hold by construction: every Edict of a deciphered runestone comes from Edict::from_integers, which returns Some only under ¬(output > tx.output.len()), '
            'and the runestone pointer is kept only under pointer < tx.output.len(); the allocation vector has tx.output.len() elements')
+  ctx.rule('R16.3', 'no UTXO entry is built out of protocol (the builder asserts its protocol at run time in debug builds, and a release build would store a misaligned entry that a later block fails to parse): '
+           'typestate of every UtxoEntryBuf local, the obligations of C35 R35.5')
+  ctx.rule('R16.4', 'the spend path panics when the address-index row of a spent output is missing, so Updater::commit must write that row for every stored entry, guarded by index_addresses only '
+           '(and remove it in lockstep with the entry): the obligations of C17 R17.1 / R17.2')
+  from .common import Relabel
+  from . import C35 as _c35, C17 as _c17
+  _c35._r35_5(Relabel(ctx, 'R16.3'))
+  _c17.run(Relabel(ctx, 'R16.4', keep=lambda rule, desc: rule in ('R17.1', 'R17.2')))
   out, pred = run_inventory(ctx, 'R16.1', ENTRIES, TABLE, partition=(16 if ctx.tier == 'thorough' else 1), floor_fns=70, floor_sites=25, label='chain-data parsers on the indexing path')
   # the updater really uses these parsers (the closure claimed is the one on the indexing path)
   ib, _ = closure(F, ['ord::index::updater::Updater::index_block'])
